@@ -7,6 +7,7 @@ import (
 	"math/big"
 	"math/bits"
 	"math/rand"
+	"strings"
 	"sync"
 	"time"
 
@@ -63,7 +64,7 @@ func (c19) ID() string    { return "C19" }
 func (c19) RunFn() string { return "run_C19" }
 func (c19) Workers() int  { return 8 }
 func (c19) Rule() string {
-	return "random (base, factor, cap) in [1, 2^40] (small values, powers of two, values at and just below 2^40, zero = default; the defaults are read from the live code through VerifBackoffDefaults, only 'at most three minutes when the cap is left unset' is a literal of the property), with and without jitter, through durationForAttempt(n) (n = 0..70, around the attempt where base*factor^n passes the cap, around the attempts where factor^n and base*factor^n overflow float64, 2^31-1 / 2^31 / 2^31+1, random up to 2^31, 2^53, 2^62, MaxInt64), duration() sequences (up to 70 calls, a few past the float64 overflow point) and duration() sequences after k calls and reset(); cap below / equal to the base and cap = base*factor^k-1, +0, +1 (with attempt 0, factor 1 and the attempts around k) through both APIs; StreamManager scenarios (real Client + StreamManager on the scripted TCP server: session, drop, 5-8 transient negotiation failures, success, second drop, 2-3 failures, success, Stop): the wait after the n-th failed attempt of EVERY outage, measured on the server between the end of that attempt and the next accept, is at most default_base*default_factor^n ms + 500 ms slack (defaults read from the live code), i.e. the sequence restarts after a successful reconnection (Coq: C19_outages_restart / C19_formula_seq_after_reset give the bounds the model returns for the observed attempt counts; C19_jitter_range makes the no-jitter value the bound); a malformed stream with negative caps (rand.Intn panic) and a few fixed caps above the stated bound (D22); distinct = distinct (mode, jitter, bit lengths of base/factor/cap, class of n relative to the cap crossing / float overflow); non-trivial = positive parameters within the bound, factor >= 2, base < cap and at least one observed attempt number >= 1"
+	return "random (base, factor, cap) in [1, 2^40] (small values, powers of two, values at and just below 2^40, zero = default; the defaults are read from the live code through VerifBackoffDefaults, only 'at most three minutes when the cap is left unset' is a literal of the property), with and without jitter (a jittered delay is compared through its range only: 0 <= delay <= the no-jitter delay of that attempt, any resolution), through durationForAttempt(n) (n = 0..70, around the attempt where base*factor^n passes the cap, around the attempts where factor^n and base*factor^n overflow float64, 2^31-1 / 2^31 / 2^31+1, random up to 2^31, 2^53, 2^62, MaxInt64), duration() sequences (up to 70 calls, a few past the float64 overflow point) and duration() sequences after k calls and reset(); cap below / equal to the base and cap = base*factor^k-1, +0, +1 (with attempt 0, factor 1 and the attempts around k) through both APIs; StreamManager scenarios (real Client + StreamManager on the scripted TCP server: session, drop, 5-8 transient negotiation failures, success, second drop, 2-3 failures, success, Stop): the wait after the n-th failed attempt of EVERY outage, measured on the server between the end of that attempt and the next accept, is at most default_base*default_factor^n ms + 500 ms slack (defaults read from the live code), i.e. the sequence restarts after a successful reconnection (Coq: C19_outages_restart / C19_formula_seq_after_reset give the bounds the model returns for the observed attempt counts; C19_jitter_range makes the no-jitter value the bound); a malformed stream with negative caps (rand.Intn panic) and a few fixed caps above the stated bound (D22); distinct = distinct (mode, jitter, bit lengths of base/factor/cap, class of n relative to the cap crossing / float overflow); non-trivial = positive parameters within the bound, factor >= 2, base < cap and at least one observed attempt number >= 1"
 }
 
 // ---- exact arithmetic shared by generator and oracle (math/big; no model) ----
@@ -408,49 +409,73 @@ func (c19) Run(inp interface{}) (obs Sx) {
 	if in.Mode == 3 {
 		return c19RunSM(in)
 	}
-	defer func() {
-		if e := recover(); e != nil {
-			in.panicked, in.ns = true, nil
-			if fmt.Sprint(e) != "invalid argument to Intn" {
-				panic(e) // not the panic the model describes: let the harness report it
-			}
-			if in.Mode == 0 {
-				obs = L(Z(1))
-			} else {
-				obs = L(L(Z(1)))
-			}
-		}
-	}()
-	one := func(ns int64) Sx { return L(Z(0), Z(ns)) }
-	switch in.Mode {
-	case 0:
-		d := xmpp.VerifBackoffForAttempt(in.NoJitter, in.Base, in.Factor, in.Cap, in.N)
-		in.ns = []int64{int64(d)}
-		return one(int64(d))
-	case 1, 2:
-		var ds []int64
-		if in.Mode == 1 {
-			for _, d := range xmpp.VerifBackoffSeq(in.NoJitter, in.Base, in.Factor, in.Cap, in.N) {
-				ds = append(ds, int64(d))
-			}
-		} else {
-			for _, d := range xmpp.VerifBackoffSeqReset(in.NoJitter, in.Base, in.Factor, in.Cap, in.K, in.N) {
-				ds = append(ds, int64(d))
-			}
-		}
-		in.ns = ds
-		items := make([]Sx, len(ds))
-		for i, d := range ds {
-			items[i] = one(d)
-		}
-		return LS(items)
+	noDelay := L(Z(1)) // the random draw had an empty range
+	if in.Mode != 0 {
+		noDelay = L(L(Z(1)))
 	}
-	return L(Z(-2))
+	ds, panicked := c19Call(in)
+	in.ns, in.panicked = ds, panicked
+	if panicked {
+		return noDelay
+	}
+	// Outside the property (non-positive effective cap, with jitter) the draw has an empty
+	// range: the code panics in rand.Intn; returning the non-positive ceiling instead is just
+	// as good. Both are observed as "no delay drawn".
+	if _, _, cp := c19Eff(in); cp <= 0 && !in.NoJitter {
+		calls, nonpos := in.N, true
+		if in.Mode == 0 {
+			calls = 1
+		} else if in.Mode == 2 {
+			calls += in.K
+		}
+		for _, d := range ds {
+			nonpos = nonpos && d <= 0
+		}
+		if calls > 0 && nonpos {
+			in.panicked, in.ns = true, nil
+			return noDelay
+		}
+	}
+	one := func(ns int64) Sx { return L(Z(0), Z(ns)) }
+	if in.Mode == 0 {
+		return one(ds[0])
+	}
+	items := make([]Sx, len(ds))
+	for i, d := range ds {
+		items[i] = one(d)
+	}
+	return LS(items)
 }
 
-// Input: (mode, nojitter, base, factor, cap, k, n, rs). rs = the rand oracle handed to
-// the model, one per observed call: with jitter, the observed delay in ms (so the model
-// reproduces the observation iff it is a whole number of ms inside [0, d)); else zeros.
+// c19Call drives the real code; panicked = the random draw refused its argument
+// (rand.Intn / Int63n ...: "invalid argument to ..."). Any other panic is passed on.
+func c19Call(in *c19In) (ds []int64, panicked bool) {
+	defer func() {
+		if e := recover(); e != nil {
+			if !strings.HasPrefix(fmt.Sprint(e), "invalid argument to ") {
+				panic(e)
+			}
+			ds, panicked = nil, true
+		}
+	}()
+	switch in.Mode {
+	case 0:
+		ds = []int64{int64(xmpp.VerifBackoffForAttempt(in.NoJitter, in.Base, in.Factor, in.Cap, in.N))}
+	case 1:
+		for _, d := range xmpp.VerifBackoffSeq(in.NoJitter, in.Base, in.Factor, in.Cap, in.N) {
+			ds = append(ds, int64(d))
+		}
+	case 2:
+		for _, d := range xmpp.VerifBackoffSeqReset(in.NoJitter, in.Base, in.Factor, in.Cap, in.K, in.N) {
+			ds = append(ds, int64(d))
+		}
+	}
+	return
+}
+
+// Input: (mode, nojitter, base, factor, cap, k, n, rs). rs: one value per observed call;
+// with jitter the delay the code returned (ns), which the model echoes iff it lies in
+// [0, no-jitter delay of that attempt] (see RunC19.v); without jitter zeros.
 func (c19) Input(inp interface{}) Sx {
 	in := inp.(*c19In)
 	if !in.ran {
@@ -471,11 +496,7 @@ func (c19) Input(inp interface{}) Sx {
 	for i := range rs {
 		rs[i] = Z(0)
 		if !in.NoJitter && !in.panicked && i < len(in.ns) {
-			q := in.ns[i] / c19Ms
-			if in.ns[i] < 0 && in.ns[i]%c19Ms != 0 {
-				q-- // floor
-			}
-			rs[i] = Z(q)
+			rs[i] = Z(in.ns[i])
 		}
 	}
 	return L(Zi(in.Mode), B(in.NoJitter), Zi(in.Base), Zi(in.Factor), Zi(in.Cap), Zi(in.K), Zi(in.N), LS(rs))
@@ -565,12 +586,10 @@ func (c19) Oracle(inp interface{}, obs Sx) (string, string) {
 			}
 			prev = d
 		} else {
-			// between zero and that value (rand.Intn: strictly below), a whole number of ms
-			if d.Cmp(want) >= 0 {
-				return fmt.Sprintf("%s attempt %d: jittered delay %d ns not below min(cap, base*factor^n) = %d ns", where, attempt, d, want), sig("jitter-range")
-			}
-			if new(big.Int).Mod(d, ms).Sign() != 0 {
-				return fmt.Sprintf("%s attempt %d: jittered delay %d ns is not a whole number of ms", where, attempt, d), sig("jitter-unit")
+			// between zero and that value (how the draw is made, and at which resolution,
+			// is not the property's business)
+			if d.Cmp(want) > 0 {
+				return fmt.Sprintf("%s attempt %d: jittered delay %d ns above min(cap, base*factor^n) = %d ns", where, attempt, d, want), sig("jitter-range")
 			}
 		}
 	}
